@@ -314,6 +314,14 @@ def _round(ip, args, kw):
             return ip.call_function(f, [v] + ([nd] if nd is not None else []), {})
     if nd is None:
         return ops.round_half_even(v)
+    if getattr(ip, "abstract_round", False) and isinstance(v, Sym) and v.sort == "real" and isinstance(nd, int) and nd > 0:
+        # sound over-approximation: some real within half a unit in the last place
+        r = z3.Real(fresh_name("rnd"))
+        half = term(Fraction(1, 2 * 10 ** nd), "real")
+        ip.assume(z3.And(r - v.t <= half, v.t - r <= half))
+        ip.assume(z3.Implies(v.t == 0, r == 0))
+        ip.assume(z3.Implies(v.t == 1, r == 1))
+        return Sym(r, "real")
     return ops.round_nd(v, nd)
 
 
@@ -804,7 +812,11 @@ def _ceil(ip, a, k):
 
 @external("math.hypot")
 def _hypot(ip, a, k):
-    return ops.hypot(a[0], a[1], ip.assume)
+    memo = ip.__dict__.setdefault("_hypot_memo", {})
+    key = tuple(str(term(x, "real").sexpr()) for x in a[:2])
+    if key not in memo:
+        memo[key] = ops.hypot(a[0], a[1], ip.assume)
+    return memo[key]
 
 
 @external("math.sqrt")
@@ -964,7 +976,12 @@ def _close(ip, a, k):
     fx, fy = _flat(ip, x), _flat(ip, y)
     if len(fx) != len(fy):
         return False
-    return b_and(*[ops.cmp_num("<=", ops.absv(ops.sub(p, q)), eps) for p, q in zip(fx, fy)])
+    out = []
+    for p, q in zip(fx, fy):
+        d = ops.sub(p, q)
+        out.append(ops.cmp_num("<=", d, eps))
+        out.append(ops.cmp_num("<=", ops.neg(d), eps))
+    return b_and(*out)
 
 
 @vlib("kind")
